@@ -318,11 +318,11 @@ func NHGPayload(pl string, nhs []string, bk string) (*aftpb.Afts_NextHopGroup, e
 	return g, nil
 }
 
-var TopPayloads = []string{"a", "b", "c"}
+var TopPayloads = []string{"a", "b", "c", "d"}
 
 func topMeta(pl string) []byte {
 	switch pl {
-	case "", "a":
+	case "", "a", "d":
 		return nil
 	case "b":
 		return []byte{1, 2, 3}
@@ -382,19 +382,19 @@ func Concretise(o Op) (*spb.AFTOperation, error) {
 		p.Entry = &spb.AFTOperation_NextHopGroup{NextHopGroup: &aftpb.Afts_NextHopGroupKey{Id: i, NextHopGroup: g}}
 	case "v4":
 		e := &aftpb.Afts_Ipv4Entry{NextHopGroup: gref, NextHopGroupNetworkInstance: gni, EntryMetadata: md}
-		if o.PL == "c" {
+		if o.PL == "c" || o.PL == "d" {
 			e.DecapsulateHeader = enums.OpenconfigAftTypesEncapsulationHeaderType_OPENCONFIGAFTTYPESENCAPSULATIONHEADERTYPE_IPV4
 		}
 		p.Entry = &spb.AFTOperation_Ipv4{Ipv4: &aftpb.Afts_Ipv4EntryKey{Prefix: V4Prefix(o.Key), Ipv4Entry: e}}
 	case "v6":
 		e := &aftpb.Afts_Ipv6Entry{NextHopGroup: gref, NextHopGroupNetworkInstance: gni, EntryMetadata: md}
-		if o.PL == "c" {
+		if o.PL == "c" || o.PL == "d" {
 			e.DecapsulateHeader = enums.OpenconfigAftTypesEncapsulationHeaderType_OPENCONFIGAFTTYPESENCAPSULATIONHEADERTYPE_IPV6
 		}
 		p.Entry = &spb.AFTOperation_Ipv6{Ipv6: &aftpb.Afts_Ipv6EntryKey{Prefix: V6Prefix(o.Key), Ipv6Entry: e}}
 	case "mpls":
 		e := &aftpb.Afts_LabelEntry{NextHopGroup: gref, NextHopGroupNetworkInstance: gni, EntryMetadata: md}
-		if o.PL == "c" {
+		if o.PL == "c" || o.PL == "d" {
 			e.PoppedMplsLabelStack = []*aftpb.Afts_LabelEntry_PoppedMplsLabelStackUnion{{PoppedMplsLabelStackUint64: 300}}
 		}
 		p.Entry = &spb.AFTOperation_Mpls{Mpls: &aftpb.Afts_LabelEntryKey{
